@@ -58,8 +58,26 @@ Theorem C10_every_delivery_handled :
 Proof. exact (conj marked_is_owed (conj block_nothing_marked every_delivery_handled)). Qed.
 Print Assumptions C10_every_delivery_handled.
 
-(* Hand-off, same scope: unregistering an active exclusive interest while another interest for the signal is
-   registered in the same tree posts the selection among the remaining interests of that tree (not empty). *)
+(* Hand-off.  Unregistering an exclusive interest whose delivery is still noted (`active`) while another interest
+   for the signal is registered -- in its own tree or, for a this-thread interest, among the process-wide ones --
+   hands the delivery over: the posts that follow are the selection among the remaining interests of its own
+   tree if that is not empty, otherwise (this-thread interest) the selection among the process-wide interests;
+   never the empty list.  This is what iv_signal_handler would have chosen without the unregistered interest.
+   (True since the fix of D5, commit "fix: hand a pending exclusive this-thread signal delivery over to
+   process-wide interests".) *)
+Theorem C10_exclusive_handoff :
+  forall s t id sa s' r r', reachable s -> step s (LUnreg t id sa) = Some s' -> find id (regs s) = Some r ->
+    i_excl r = true -> i_active r = true ->
+    In r' (regs s) -> i_id r' <> id -> i_sig r' = i_sig r -> (in_scope (scope_of r) r' = true \/ i_tt r' = false) ->
+    exists p, stg s' t = SUnreg p /\ p <> [] /\ regs s' = remove id (regs s) /\
+      p = match sel_plan (scope_of r) (i_sig r) (remove id (regs s)) with
+          | [] => sel_plan None (i_sig r) (remove id (regs s))
+          | q => q
+          end.
+Proof. exact handoff_any_scope. Qed.
+Print Assumptions C10_exclusive_handoff.
+
+(* ... in particular inside one tree: *)
 Theorem C10_exclusive_handoff_same_scope : forall s t id sa s' r r', reachable s ->
   step s (LUnreg t id sa) = Some s' -> find id (regs s) = Some r ->
   i_excl r = true -> i_active r = true ->
@@ -69,22 +87,17 @@ Theorem C10_exclusive_handoff_same_scope : forall s t id sa s' r r', reachable s
 Proof. exact handoff_same_scope. Qed.
 Print Assumptions C10_exclusive_handoff_same_scope.
 
-(* Hand-off at full strength ("this-thread first, then process-wide", what iv_signal_handler would have
-   chosen) is FALSE on the current tree (D5): witness d5_trace -- interest 1 exclusive process-wide, interest
-   2 exclusive this-thread, a delivery marks 2, 2 is unregistered before its handler ran: nothing is posted,
-   interest 1 stays registered with the handler installed, the thread blocks, no handler ever ran. *)
-Theorem C10_handoff_cross_scope_refuted :
-  ~ handoff_full_strength /\
-  accepts d5_trace = true /\ monitor false d5_trace = true /\ monitor true d5_trace = false /\
-  stg d5_s' 0 = SUnreg [] /\
-  map (fun r => (i_id r, i_sig r, i_tt r, i_active r, i_cnt r)) (regs d5_s') = [(1, 10, false, false, 0)] /\
-  disp d5_s' 10 = true /\
+(* D5 as a regression: the step function of the code BEFORE the fix (step_gen false) accepts d5_trace -- interest 1
+   exclusive process-wide, interest 2 exclusive this-thread, a delivery marks 2, 2 is unregistered before its
+   handler ran, nothing is posted, the thread blocks, no handler ever runs -- which the full-strength monitor
+   rejects (the weaker same-scope reading, monitor false, lets it pass).  The current code does not produce that
+   trace; it produces d5_fixed_trace (the delivery reaches interest 1), accepted by model and monitor. *)
+Example C10_handoff_cross_scope_regression :
+  accepts_gen false d5_trace = true /\ monitor true d5_trace = false /\ monitor false d5_trace = true /\
+  accepts d5_trace = false /\
+  accepts d5_fixed_trace = true /\ monitor true d5_fixed_trace = true /\ accepts_gen false d5_fixed_trace = false /\
   existsb (fun l => match l with LHandler _ _ => true | _ => false end) d5_trace = false.
-Proof.
-  split; [exact handoff_cross_scope_refuted|].
-  destruct d5_facts as [_ [_ [H3 [H4 [H5 [H6 [H7 [H8 H9]]]]]]]]. repeat split; assumption.
-Qed.
-Print Assumptions C10_handoff_cross_scope_refuted.
+Proof. exact d5_regression. Qed.
 
 (* The disposition of a signal is SIG_DFL iff no interest is registered for it (in any scope). *)
 Theorem C10_default_restored : forall s sig, reachable s ->
@@ -108,8 +121,8 @@ Theorem C10_invariant : forall s, reachable s -> Inv s.
 Proof. exact reachable_inv. Qed.
 Print Assumptions C10_invariant.
 
-(* The monitor run on implementation logs accepts every label sequence of the model. *)
-Theorem C10_monitor_accepts : forall ls, accepts ls = true -> monitor false ls = true.
+(* The full-strength monitor run on implementation logs accepts every label sequence of the model. *)
+Theorem C10_monitor_accepts : forall ls, accepts ls = true -> monitor true ls = true.
 Proof. exact monitor_accepts. Qed.
 Print Assumptions C10_monitor_accepts.
 
